@@ -87,3 +87,56 @@ pub fn cards_link_native<S: Src>(s: &mut S) {
     check!(s, hr.value == ordinal(&t, same_suit(&su)), "C06.cards_link.value");
     check!(s, hr.is_a_valid_hand_rank() && !hr.is_invalid(), "C06.cards_link.consistent");
 }
+
+/// link between cards, value, category and class on the real code: for EVERY class of the
+/// group (symbolic sorted tuple + flush flag) the canonical hand's hand_rank() carries a
+/// valid value and the category and class of the cards; the C13 predicates agree with the
+/// reported category.
+fn link_rep<S: Src>(s: &mut S, group: u8) {
+    use super::c01::canonical;
+    use ckc_rs::cards::five::Five;
+    use ckc_rs::cards::HandRanker;
+    let t = [s.below(13), s.below(13), s.below(13), s.below(13), s.below(13)];
+    let flush = s.bool();
+    assume!(s, is_class_tuple(&t));
+    assume!(s, distinct5(&t) || !flush);
+    let (cat, idx) = semantic_class(&t, flush);
+    let in_group = match group {
+        0 => cat == CAT_STRAIGHT_FLUSH || cat == CAT_FLUSH || cat == CAT_STRAIGHT || cat == CAT_HIGH_CARD,
+        1 => cat == CAT_QUADS,
+        2 => cat == CAT_FULL_HOUSE,
+        3 => cat == CAT_TRIPS,
+        4 => cat == CAT_TWO_PAIR,
+        _ => cat == CAT_PAIR,
+    };
+    assume!(s, in_group);
+    let h = Five::from(canonical(&t, flush));
+    let hr = h.hand_rank();
+    check!(s, hr.value >= 1 && hr.value <= 7462, "C06.link_rep.value_is_a_real_rank");
+    check!(s, hr.name == NAME_TABLE[cat as usize], "C06.link_rep.category_describes_cards");
+    check!(s, hr.class == CLASS_TABLE[idx as usize].0, "C06.link_rep.class_describes_cards");
+    check!(s, !hr.is_invalid(), "C06.link_rep.not_invalid");
+    // C13: predicates agree with the category obtained by ranking the same hand
+    check!(s, h.is_straight_flush() == (hr.name == HandRankName::StraightFlush), "C06.link_rep.straight_flush_predicate_agrees");
+    check!(s, h.is_flush() == (hr.name == HandRankName::StraightFlush || hr.name == HandRankName::Flush), "C06.link_rep.flush_predicate_agrees");
+    check!(s, h.is_straight() == (hr.name == HandRankName::StraightFlush || hr.name == HandRankName::Straight), "C06.link_rep.straight_predicate_agrees");
+}
+
+pub fn link_rep_distinct<S: Src>(s: &mut S) {
+    link_rep(s, 0)
+}
+pub fn link_rep_quads<S: Src>(s: &mut S) {
+    link_rep(s, 1)
+}
+pub fn link_rep_full_house<S: Src>(s: &mut S) {
+    link_rep(s, 2)
+}
+pub fn link_rep_trips<S: Src>(s: &mut S) {
+    link_rep(s, 3)
+}
+pub fn link_rep_two_pair<S: Src>(s: &mut S) {
+    link_rep(s, 4)
+}
+pub fn link_rep_pair<S: Src>(s: &mut S) {
+    link_rep(s, 5)
+}
